@@ -584,7 +584,7 @@ class PSET(PSBT):
             proof, in_idx = secp256k1.surjectionproof_initialize(
                 in_tags, out.asset, proof_seed
             )
-            secp256k1.surjectionproof_generate(
+            proof = secp256k1.surjectionproof_generate(
                 proof, in_idx, in_gens, gen, abfs[in_idx], out.asset_blinding_factor
             )
             out.surjection_proof = secp256k1.surjectionproof_serialize(proof)
